@@ -10,6 +10,11 @@ import Mouette.Lemmas.C04Ref
 import Mouette.Lemmas.C04GeoAttrs
 import Mouette.Lemmas.C04GeoRef
 import Mouette.Lemmas.C04Tables
+import Mouette.Lemmas.C04GeoFile
+import Mouette.Lemmas.C04Save
+import Mouette.Lemmas.C04Repr
+import Mouette.Lemmas.C04StlReader
+import Mouette.Generated.C04Save
 import Mouette.Generated.C04Tables
 /-
 C04 — saving then loading a mesh is lossless within each format's vocabulary.
@@ -144,14 +149,13 @@ theorem stl_polygon_refuted : exportStl unitCodec pentaMesh = none := by decide
    arity.  The splitting of the token file into chunks (`parseFile`) and the attribute chunks in context are covered by
    the correspondence and by `geo_attr_chunk_partial`. -/
 
-/-- geogram elements: vertices, ALL edges, faces of any arity (facet_ptr written by the repaired exporter and decoded
-by the importer), tetrahedra, cell adjacency.  `expectedG g` is `g` itself plus the `facet_ptr` block re-read as an
-integer attribute of the facets (what the Python importer does). -/
-theorem geo_elements_load_save_partial (cd : Codec C) (h : RoundTrips cd) (g : Geo.GMesh C) (ha : g.attrs = [])
-    (htet : ∀ c ∈ g.raw.cells, c.length = 4) :
-    Geo.importChunks cd (Geo.exportChunks cd g) = some (Geo.expectedG g)
-    ∧ (Geo.expectedG g).raw = { g.raw with hard := none } :=
-  ⟨Geo.importChunks_exportChunks cd h g ha htet, rfl⟩
+/-- geogram elements (no user attributes): vertices, ALL edges, faces AND cells of any arity (facet_ptr / cell_ptr
+written by the repaired exporter and decoded by the importer), cell adjacency.  `expectedGA g` is `g` itself plus the
+`*_ptr` blocks re-read as integer attributes (what the Python importer does). -/
+theorem geo_elements_load_save_partial (cd : Codec C) (h : RoundTrips cd) (g : Geo.GMesh C) (ha : g.attrs = []) :
+    Geo.importChunks cd (Geo.exportChunks cd g) = some (Geo.expectedGA g)
+    ∧ (Geo.expectedGA g).raw = { g.raw with hard := none } :=
+  ⟨Geo.importChunks_exportChunks_attrs cd h g (by rw [ha]; intro a hm; cases hm), rfl⟩
 
 /-- pointer arithmetic for ALL element lists: the prefix sums written as facet_ptr / cell_ptr give back the element
 sizes and the elements themselves -/
@@ -233,19 +237,33 @@ theorem xyz_read_by_reference (cd : Codec C) (h : RoundTrips cd) (m : Raw C) :
 
 /-! ### round 2 — geogram attributes in context, mixed cell arities with cell_ptr -/
 
-/- geogram, FULL statement (see above).  Still excluded below: cells that are not tetrahedra on EXPORT (no cell_ptr is
-   written; saving hexahedra fails earlier, open finding C04/geogram_ascii/hex-cell/save-raises), attributes on
-   cell_faces, and the token-file ↔ chunk-list layer (`parseFile`), which stay correspondence-checked. -/
+/- geogram, FULL statement (see above).  Since round 3 the exporter model writes cell_ptr (repaired code) and the
+   token-file ↔ chunk-list layer is proved (`geo_file_load_save`).  Still excluded: attributes on cell_faces, attribute
+   element types complex / str (open findings C04/geogram_ascii/attr-complex, attr-string), values not in canonical form. -/
 
 /-- geogram with ANY number of user attributes on every element set: the chunk list written by the exporter is read
 back as the same elements (faces of any arity) and `expectedAttrs g` = the attributes of every non-empty element set
 in file order, each with its container, name, type, arity and values (plus the `facet_ptr` block re-read as an integer
 attribute of the facets, as the Python importer does). -/
 theorem geo_load_save_attrs_partial (cd : Codec C) (h : RoundTrips cd) (g : Geo.GMesh C)
-    (hg : ∀ a ∈ g.attrs, Geo.GoodAttr cd a) (htet : ∀ c ∈ g.raw.cells, c.length = 4) :
+    (hg : ∀ a ∈ g.attrs, Geo.GoodAttr cd a) :
     Geo.importChunks cd (Geo.exportChunks cd g) = some (Geo.expectedGA g)
     ∧ (Geo.expectedGA g).raw = { g.raw with hard := none } :=
-  ⟨Geo.importChunks_exportChunks_attrs cd h g hg htet, rfl⟩
+  ⟨Geo.importChunks_exportChunks_attrs cd h g hg, rfl⟩
+
+/-- round 3 — FILE level: the token file written by the exporter, split into chunks by the header detection,
+parsed by `Chunk.__init__` and imported, is the mesh (cells of ANY arity, any number of user attributes whose name and
+value tokens cannot be mistaken for a chunk header). -/
+theorem geo_file_load_save (cd : Codec C) (h : RoundTrips cd) (g : Geo.GMesh C)
+    (hg : ∀ a ∈ g.attrs, Geo.GoodAttr cd a) (hs : g.attrs.all Geo.fileSafe = true) :
+    Geo.importGeo cd (Geo.exportGeo cd g) = some (Geo.expectedGA g)
+    ∧ (Geo.expectedGA g).raw = { g.raw with hard := none } :=
+  ⟨Geo.importGeo_exportGeo cd h g hg hs, rfl⟩
+
+/-- round 3 — the token file ↔ chunk list step alone: parsing inverts printing on every well-formed chunk list -/
+theorem geo_parse_print (cs : List Geo.Chunk) (h : cs.all Geo.wfChunk = true) :
+    Geo.parseFile ((cs.map Geo.chunkLines).flatten) = some cs :=
+  Geo.parseFile_print cs h
 
 /-- every attribute of a non-empty element set comes back unchanged … -/
 theorem geo_attrs_come_back (g : Geo.GMesh C) (a : Geo.GAttr) (ha : a ∈ g.attrs)
@@ -255,9 +273,9 @@ theorem geo_attrs_come_back (g : Geo.GMesh C) (a : Geo.GAttr) (ha : a ∈ g.attr
     a ∈ (Geo.expectedGA g).attrs :=
   Geo.attrs_come_back g a ha hne
 
-/-- … and nothing is invented: what is read back is an attribute of the mesh or the `facet_ptr` block -/
+/-- … and nothing is invented: what is read back is an attribute of the mesh or a `facet_ptr` / `cell_ptr` block -/
 theorem geo_attrs_nothing_else (g : Geo.GMesh C) (a : Geo.GAttr) (ha : a ∈ (Geo.expectedGA g).attrs) :
-    a ∈ g.attrs ∨ a.name = Geo.facetPtrName :=
+    a ∈ g.attrs ∨ a.name = Geo.facetPtrName ∨ a.name = Geo.cellPtrName :=
   Geo.attrs_nothing_else g a ha
 
 /-- P1: the chunk list of an INDEPENDENT geogram writer (all [ATTS] first, `facet_ptr` and `cell_ptr` when needed)
@@ -302,6 +320,84 @@ theorem obj_listed_prefix_target (cd : Codec C) (r r' : Raw C) (k tgt : String) 
     (tgt ≠ "vertices" → r'.verts = r.verts) ∧ (tgt ≠ "faces" → r'.faces = r.faces) ∧
     (tgt ≠ "edges" → r'.edges = r.edges) ∧ r'.cells = r.cells := by
   rw [obj_rows_bridge] at h; exact Tables.stepObj_listed cd r r' k tgt rest h hs
+
+/-! ### round 3 — histories of saves on one mesh object; representation independence -/
+
+/-- the `ignore_elements` guards read from mesh.py now are the model's table, and they give the re-wrapped RawMeshData
+fresh containers (`replace`) instead of clearing the containers shared with the mesh (pinned tree: `clearShared`) -/
+theorem save_guards_bridge :
+    Mouette.Generated.C04Save.ignoreRows = Tables.saveIgnoreRows
+    ∧ Mouette.Generated.C04Save.ignoreMode = Tables.IgnoreMode.replace := by decide
+
+/-- the model's `applyIgnore` is the interpretation of the extracted guard table -/
+theorem save_ignore_from_table (ig : Ignore) (m : Raw C) :
+    applyIgnore ig m = Tables.applyIgnoreWith Mouette.Generated.C04Save.ignoreRows ig m := by
+  rw [save_guards_bridge.1]; exact Tables.applyIgnore_table ig m
+
+/-- a save (any ignore set) leaves the caller's mesh unchanged … -/
+theorem save_preserves_mesh (ig : Ignore) (m : Raw C) :
+    (Tables.saveMesh Mouette.Generated.C04Save.ignoreMode ig m).2 = m := by
+  rw [save_guards_bridge.2]; rfl
+
+/-- … hence after ANY history of saves on one mesh object the n-th save writes what a save of a fresh copy writes,
+and the object is still the mesh one started with -/
+theorem save_history (igs : List Ignore) (m : Raw C) :
+    Tables.saveHistory Mouette.Generated.C04Save.ignoreMode igs m = (igs.map (fun ig => applyIgnore ig m), m) := by
+  rw [save_guards_bridge.2]; exact Tables.saveHistory_replace igs m
+
+/-- with `.clear()` on the shared containers (pinned tree) the statement fails: after saving a triangle with
+ignore_elements={faces}, the next save writes no face -/
+theorem save_history_clearShared_refuted :
+    (Tables.saveHistory .clearShared [{ faces := true }, {}] quadMesh).1 ≠ [applyIgnore { faces := true } quadMesh, applyIgnore {} quadMesh] := by
+  decide
+
+/-- second generation (load, save again, load): the content read from a medit / tet / xyz file is a fixed point -/
+theorem second_generation (cd : Codec C) (h : RoundTrips cd) (m : Raw C) :
+    importMedit cd (exportMedit cd (restrictMedit m)) = some (restrictMedit m)
+    ∧ importTet cd (exportTet cd (restrictTet m)) = some (restrictTet m)
+    ∧ importXyz cd (exportXyz cd (restrictXyz m)) = some (restrictXyz m) := by
+  refine ⟨?_, ?_, ?_⟩
+  · rw [medit_load_save cd h, restrictMedit_idem]
+  · rw [tet_load_save cd h]; rfl
+  · rw [xyz_load_save cd h]; rfl
+
+/-- representation independence: coordinates handed in as another number type `Cw` (Python int, numpy int64 / float32 /
+float64 scalars …) whose printed text parses to the exact value `ι c` load as the mesh with `ι` applied — for obj,
+medit, tet, xyz; and (off) with the exact behaviour of the reader -/
+theorem load_save_any_representation {Cw Cr : Type} (cdw : Codec Cw) (cdr : Codec Cr) (ι : Cw → Cr)
+    (h : Reads cdw cdr ι) (cfg : Cfg) (m : Raw Cw) :
+    importObj cdr (exportObj cdw cfg m) = some (restrictObj cfg (mapRaw ι m))
+    ∧ importMedit cdr (exportMedit cdw m) = some (restrictMedit (mapRaw ι m))
+    ∧ importTet cdr (exportTet cdw m) = some (restrictTet (mapRaw ι m))
+    ∧ importXyz cdr (exportXyz cdw m) = some (restrictXyz (mapRaw ι m)) :=
+  ⟨importObj_exportObj_repr cdw cdr ι h cfg m, importMedit_exportMedit_repr cdw cdr ι h m,
+   importTet_exportTet_repr cdw cdr ι h m, importXyz_exportXyz_repr cdw cdr ι h m⟩
+
+/-- two representations of the same coordinate values load as the same mesh -/
+theorem same_values_same_load {Cw Cw' Cr : Type} (cdw : Codec Cw) (cdw' : Codec Cw') (cdr : Codec Cr)
+    (ι : Cw → Cr) (ι' : Cw' → Cr) (h : Reads cdw cdr ι) (h' : Reads cdw' cdr ι') (cfg : Cfg)
+    (m : Raw Cw) (m' : Raw Cw') (hm : mapRaw ι m = mapRaw ι' m') :
+    importObj cdr (exportObj cdw cfg m) = importObj cdr (exportObj cdw' cfg m')
+    ∧ importMedit cdr (exportMedit cdw m) = importMedit cdr (exportMedit cdw' m')
+    ∧ importTet cdr (exportTet cdw m) = importTet cdr (exportTet cdw' m')
+    ∧ importXyz cdr (exportXyz cdw m) = importXyz cdr (exportXyz cdw' m') :=
+  Mouette.IO.same_values_same_load cdw cdr ι cdw' ι' h h' cfg m m' hm
+
+/-- round 3 — STL end to end with a model of the READER (`stl_reader.read`: identical points merged, vertices in order
+of first appearance): the indexed mesh read from the file mouette wrote denotes exactly the triangles the writer
+emitted, rounded to binary32 — for every mesh whose save does not raise -/
+theorem stl_reader_soup [DecidableEq C] (cd : Codec C) (h : RoundTrips cd) (m : Raw C) (ts : List (Tri C))
+    (ht : stlTris m = some ts) :
+    ∃ file, exportStl cd m = some file ∧ (importStlMerged cd file).bind soupOf = some (ts.map (r32tri cd)) := by
+  obtain ⟨file, h1, h2⟩ := stlSoup_exportStl cd h m ts ht
+  refine ⟨file, h1, ?_⟩
+  simp only [importStlMerged, h2, Option.map_some, Option.bind_some]
+  exact soupOf_mergeTris _
+
+/-- merging points never changes the soup (any triangle list) -/
+theorem stl_merge_keeps_soup [DecidableEq C] (ts : List (Tri C)) :
+    soupOf ({ verts := (mergeTris ts []).1, faces := (mergeTris ts []).2 } : Raw C) = some ts :=
+  soupOf_mergeTris ts
 
 /-! ### kinds outside the vocabulary are absent -/
 
